@@ -16,9 +16,6 @@ func (k Keeper) BeginBlocker(ctx context.Context) error {
 	if err := k.DistributeReward(sdkctx); err != nil {
 		return err
 	}
-	if err := k.DequeueMatureUnlocks(sdkctx); err != nil {
-		return err
-	}
 	if err := k.HandleVoteInfos(sdkctx); err != nil {
 		return err
 	}
@@ -30,6 +27,12 @@ func (k Keeper) BeginBlocker(ctx context.Context) error {
 
 func (k Keeper) EndBlocker(ctx context.Context) ([]abci.ValidatorUpdate, error) {
 	sdkctx := sdktypes.UnwrapSDKContext(ctx)
+
+	// matured unlocks are handed over from the next block on: proposals are built and verified
+	// on the committed state, so the delivery queue must not change before the block message runs
+	if err := k.DequeueMatureUnlocks(sdkctx); err != nil {
+		return nil, err
+	}
 
 	lastSet := make(map[string]uint64)
 	{
